@@ -161,6 +161,7 @@ def run(ctx):
             for k in sorted(set([1, n] if ctx.quick() else [1, 2, n])):
                 if 1 <= k <= n:
                     points.append(("boundary", name, k))
+                    points.append(("boundary-oserror", name, k))     # what these layers really raise: OSError family
         # BaseException variant (KeyboardInterrupt / SystemExit style exits): raised in the parent process only -
         # a BaseException inside a multiprocessing worker kills the worker and hangs the pool, which is outside thejoker
         parent_only = ("run_worker", "write_table_hdf5", "JokerSamples.write", "rejection_sample_helper", "make_full_samples",
@@ -170,6 +171,7 @@ def run(ctx):
             fn = key.split(":")[1]
             if any(fn.endswith(x) or x in fn for x in parent_only) and not any(x in fn for x in in_workers):
                 points.append(("py-base", key, 1))
+                points.append(("py-oserror", key, counts[key]))
             elif pk == 0 and any(x in fn for x in in_workers) and (not ctx.quick() or "read_batch" == fn):
                 points.append(("py-base", key, 1))
         ctx.counters["fault_points_%s_%s_%d_v%d" % (sc + (variant,))] = len(points)
@@ -177,10 +179,11 @@ def run(ctx):
         for kindp, key, k in points:
             desc = dict(scenario=list(sc), variant=variant, fault_point=key, invocation=k if not isinstance(k, tuple) else list(k), kind=kindp)
             joker, base = make_joker()
-            faults.Boundary.reset(target=(key, k) if kindp == "boundary" else None)
+            faults.Boundary.reset(target=(key, k) if kindp.startswith("boundary") else None, oserr=kindp.endswith("oserror"))
             faults.State.fired = 0
             if kindp.startswith("py"):
-                faults.inject(key, k, base=(kindp == "py-base"))   # before the pool forks: workers inherit the target
+                # before the pool forks: workers inherit the target
+                faults.inject(key, k, base=(kindp == "py-base"), oserr=(kindp == "py-oserror"))
                 if pk:
                     base.close()
                     base = schwimmbad.MultiPool(processes=pk)
